@@ -437,3 +437,4 @@ MANIFEST = {
     "arrays and duck arrays other than ndarray are outside.",
     "ref": "DESIGN.md §4 C16",
 }
+MANIFEST["text"] += ' Gap arguments: clip with a None bound, nan_to_num with posinf/neginf/nan replacement values.'
